@@ -32,6 +32,10 @@ pub fn pool() -> Vec<RVal> {
         s(""),
         s(" "),
         s("\n"),
+        // whitespace-only strings with non-ASCII / vertical white space are blank too
+        s("\u{a0}"),
+        s("\u{3000} \u{2003}"),
+        s("\u{b}"),
         s("1"),
         s("1.0"),
         s("a"),
@@ -229,6 +233,42 @@ fn chains(ctx: &mut Ctx) {
                 let main = vec![Node::If { arms: vec![(Cond { ors }, marker(1))], else_: Some(marker(0)) }];
                 run_case(ctx, &Case { main: &main, partials: &[], data: &data, family: "and-or-grouping", strip_newlines: false, style_seed: code as u64 }, len >= 2);
             }
+        }
+    }
+    // bare member tests where an inner binding shadows an outer variable that has the member,
+    // and bare tests of undefined names that collide with the special names
+    {
+        let outer = RVal::Object(vec![("flag".into(), RVal::Bool(true)), ("size".into(), RVal::Int(3))]);
+        let items = vec![
+            RVal::Object(vec![("other".into(), RVal::Int(1))]),
+            RVal::Object(vec![("flag".into(), RVal::Bool(false))]),
+            RVal::Object(vec![("flag".into(), RVal::Int(0))]),
+            RVal::Str("plain".into()),
+            RVal::Int(7),
+            RVal::Nil,
+        ];
+        let data = RVal::Object(vec![("x".into(), outer), ("xs".into(), RVal::Array(items))]);
+        for member in ["flag", "other", "missing", "size"] {
+            let test = |kw_unless: bool| {
+                let cond = Cond::atom(Atom::Truthy(Expr::Var(Path::name("x").dot(member))));
+                if kw_unless {
+                    Node::Unless { cond, body: marker(1), else_: Some(marker(0)) }
+                } else {
+                    Node::If { arms: vec![(cond, marker(1))], else_: Some(marker(0)) }
+                }
+            };
+            for kw_unless in [false, true] {
+                let main = vec![
+                    test(kw_unless),
+                    Node::For { var: "x".into(), coll: Coll::Expr(Expr::var("xs")), limit: None, offset: None, reversed: false, body: vec![test(kw_unless)], else_: None },
+                    test(kw_unless),
+                ];
+                run_case(ctx, &Case { main: &main, partials: &[], data: &data, family: "shadowed-member-test", strip_newlines: false, style_seed: 3 }, true);
+            }
+        }
+        for name in ["size", "first", "last", "forloop", "tablerow", "nope"] {
+            let main = vec![Node::If { arms: vec![(Cond::atom(Atom::Truthy(Expr::var(name))), marker(1))], else_: Some(marker(0)) }];
+            run_case(ctx, &Case { main: &main, partials: &[], data: &RVal::Object(vec![("k".into(), RVal::Int(1))]), family: "undefined-special-name", strip_newlines: false, style_seed: 4 }, true);
         }
     }
     // case/when: 1..4 arms, value lists with duplicates and overlaps, comma and `or`
